@@ -1296,7 +1296,9 @@ fn l2_report(sh: &Shared, file: &[LRec], ch: &[[usize; 5]], class: &str, what: &
             }
         }
     }
-    let sig = format!("C07|layout|L2|kind={}|{}|{class}", file[at].kind.name(), parts.join(","));
+    // inheritance outcomes do not depend on the record type
+    let kind = if ["records-differ:ttl", "records-differ:class", "records-differ:owner"].contains(&class) { "*" } else { file[at].kind.name() };
+    let sig = format!("C07|layout|L2|kind={kind}|{}|{class}", parts.join(","));
     if !first_in_thread(&sig) {
         return;
     }
